@@ -120,6 +120,7 @@ def driver_bin():
 SUITE_ARGS = {
     "bytes": ["bytes"],
     "emplace": ["emplace"],
+    "ops": ["ops"],
 }
 
 def run_suite(name, tier, seed, fp):
@@ -201,6 +202,7 @@ def parse_emp(r):
     toks = r.split(" ") if r else []
     if not toks:
         d["cls"] = "MEMFAULT"; return d
+    d["raw_tail"] = " ".join(t for t in toks[2:] if "=" not in t)
     d["res"] = toks[0]
     d["cls"] = toks[0].split(":")[0]
     if d["cls"] == "err":
@@ -493,6 +495,66 @@ def oracle_C14e(lhs, o, t):
             if a[2 * v:] != pre[2 * v:]: return f"assign_in_place changed bytes after the value's own {v} bytes"
     return None
 
+# ---- operation histories (O lines) ------------------------------------------------------------------------
+def op_of(lhs):
+    return lhs.split(" ", 5)[5]
+def tkind(t):
+    d = t["desc"]
+    return "vec" if d.startswith("(vec") else "str" if d.startswith("(str") else "flex" if d.startswith("(flex") else "other"
+def content_of(p):
+    f = probe_fields(p)
+    return strip_caps(f["w"]) if f and f["ok"] else None
+def proj_ops(lhs, o, t):
+    return (o.get("res"), o.get("after"), o.get("p"), o.get("same"))
+def oracle_seq(lhs, o, t):
+    """the container agrees with the abstract sequence the harness maintains (a plain Vec / String / Vec of items)"""
+    if o["cls"] == "MEMFAULT": return "memory fault"
+    if o["cls"] == "notvalid": return f"the container did not validate before the operation: {o['res']}"
+    if "want" in o and o["want"] != o["res"]: return f"returned {o['res']}, the abstract sequence returns {o['want']}"
+    if o["cls"] == "PANIC" and o.get("want") != "PANIC": return "panic"
+    f = probe_fields(o.get("p"))
+    if not f or not f["ok"]: return f"the bytes do not validate / re-map after the operation: {o.get('p')}"
+    if content_of(o.get("p")) != o.get("abs"): return f"content {content_of(o.get('p'))} differs from the abstract sequence {o.get('abs')}"
+    if "!OVER" in f["w"]: return "len > capacity"
+    return None
+def proj_C11(lhs, o, t):
+    return proj_ops(lhs, o, t) if lhs[0] == "O" and tkind(t) in ("vec", "str") else ()
+def oracle_C11(lhs, o, t):
+    if lhs[0] != "O" or tkind(t) not in ("vec", "str"): return None
+    if "CAP-CHANGED" in o.get("raw_tail", ""): return "the capacity changed"
+    return oracle_seq(lhs, o, t)
+def proj_C12(lhs, o, t):
+    return proj_ops(lhs, o, t) if lhs[0] == "O" and tkind(t) == "flex" else ()
+def oracle_C12(lhs, o, t):
+    if lhs[0] != "O" or tkind(t) != "flex": return None
+    return oracle_seq(lhs, o, t)
+REFUSED = re.compile(r"^(full|err:.*)$")
+def refusable(op):
+    head = op.split(" ")
+    while head and head[0] == "item": head = head[2:]
+    return head and head[0] in ("push", "pushslice", "pushc", "pushstr", "fpush")
+def proj_C13(lhs, o, t):
+    if lhs[0] != "O" or not refusable(op_of(lhs)): return ()
+    return (o.get("res"), o.get("same")) if REFUSED.match(o.get("res") or "") else (o.get("res"),)
+def oracle_C13(lhs, o, t):
+    if lhs[0] != "O" or not refusable(op_of(lhs)): return None
+    if REFUSED.match(o.get("res") or "") and o.get("same") != "1":
+        return f"operation refused with {o['res']} but the observable state changed: {o.get('p')}"
+    return None
+def proj_C14(lhs, o, t):
+    return (o.get("after"), o.get("outside", False))
+def oracle_C14(lhs, o, t):
+    w = oracle_C14e(lhs, o, t)
+    if w: return w
+    if lhs[0] == "O" and o["cls"] not in ("PANIC", "MEMFAULT", "notvalid"):
+        f = lhs.split(" ", 5)
+        pre = f[4]
+        p = probe_fields(o.get("p"))
+        a = o.get("after_raw", o.get("after"))
+        if p and p["ok"] and a[2 * p["v"]:] != pre[2 * p["v"]:]:
+            return f"bytes after the value's own {p['v']} bytes changed"
+    return None
+
 PROPS = {
     "C01": dict(module="FV.Props.C01", theorems=["FV.Props.C01_validate_total", "FV.Props.C01_from_bytes_total"], suites=["bytes"], proj=proj_C01, oracle=oracle_C01),
     "C02": dict(module="FV.Props.C02", theorems=["FV.Props.C02_view_within", "FV.Props.C02_truncation_validates"], suites=["bytes"], proj=proj_C02, oracle=oracle_C02),
@@ -502,6 +564,10 @@ PROPS = {
     "C15": dict(module="FV.Props.C15", theorems=["FV.Props.C15_vec_from_iterator_partial"], suites=["emplace"], proj=proj_C15, oracle=oracle_C15, post=post_C15),
     "C18": dict(module="FV.Props.C18", theorems=["FV.Props.C18_vec_from_iterator_partial"], suites=["emplace"], proj=proj_C18, oracle=oracle_C18),
     "C20": dict(module="FV.Props.C20", theorems=["FV.Props.C20_vec_default_partial"], suites=["emplace"], proj=proj_C20, oracle=oracle_C20, post=post_C20),
+    "C11": dict(module="FV.Props.C11", theorems=["FV.Props.C11_push_refines", "FV.Props.C11_pop_refines"], suites=["ops"], proj=proj_C11, oracle=oracle_C11),
+    "C12": dict(module="FV.Props.C12", theorems=["FV.Props.C12_truncate_beyond_noop_partial", "FV.Props.C12_pop_empty_partial"], suites=["ops"], proj=proj_C12, oracle=oracle_C12),
+    "C13": dict(module="FV.Props.C13", theorems=["FV.Props.C13_vec_refused_unchanged"], suites=["ops"], proj=proj_C13, oracle=oracle_C13),
+    "C14": dict(module="FV.Props.C14", theorems=["FV.Props.C14_write_frame", "FV.Props.C14_item_edit_frame"], suites=["emplace", "ops"], proj=proj_C14, oracle=oracle_C14),
     "C06": dict(module="FV.Props.C06", theorems=["FV.Props.C06_prefix_insufficient", "FV.Props.C06_extension_same"], suites=["bytes"], proj=proj_C06, oracle=oracle_C06),
 }
 
@@ -555,7 +621,7 @@ def lean_obligations(prop, cfg, thorough):
 # ------------------------------------------------------------------------------------------------
 # known findings
 # ------------------------------------------------------------------------------------------------
-SUITE_PARSE = {"bytes": parse_rhs, "emplace": parse_emp}
+SUITE_PARSE = {"bytes": parse_rhs, "emplace": parse_emp, "ops": parse_emp}
 
 def load_known():
     p = os.path.join(VERIF, "known_findings.json")
